@@ -497,3 +497,16 @@ def histories(depth, alphabet=MODES, boot=MODES):
             if h[0] in boot:
                 out.append("".join(h))
     return out
+
+
+def long_histories(depth, pairs=("da", "dt", "at", "dx", "tx")):
+    """Every history up to `depth` over each two-word alphabet: long alternations / repeated periods that the full
+    four-word enumeration cannot reach."""
+    import itertools
+
+    out = []
+    for ab in pairs:
+        for k in range(1, depth + 1):
+            for h in itertools.product(ab, repeat=k):
+                out.append("".join(h))
+    return sorted(set(out))
